@@ -216,3 +216,24 @@ def select (parseExpr unescape : String → Option String) (cfg : Config) : Exce
   if nodupNames l then .ok l else .error .other
 
 end Xml
+
+namespace Xml
+
+/-! ### well-formedness is decidable (used by the non-vacuity examples) -/
+
+instance (c : ThenItem) : Decidable c.WF := by
+  cases c <;> unfold ThenItem.WF <;> infer_instance
+
+instance (u : String → Option String) (b : BodyItem) : Decidable (b.WF u) := by
+  cases b <;> unfold BodyItem.WF <;> infer_instance
+
+instance (u : String → Option String) (s : Stmt) : Decidable (s.WF u) :=
+  decidable_of_iff
+    ((∀ a ∈ s.attrs, (a.isActive || a.isComment) = true → a.value.isSome) ∧ (∀ b ∈ s.body, b.WF u) ∧
+      Inert s.raw (s.body.flatMap BodyItem.render) ∧ s.body.any BodyItem.isName = true)
+    ⟨fun ⟨a, b, c, d⟩ => ⟨a, b, c, d⟩, fun h => ⟨h.attrs, h.body, h.inert, h.keyed⟩⟩
+
+instance (u : String → Option String) (cfg : Config) : Decidable (cfg.WF u) := by
+  unfold Config.WF; infer_instance
+
+end Xml
